@@ -550,6 +550,10 @@ func c11Gen(tier string, rng *rand.Rand, emit func(string)) map[string]interface
 				script = "o0 ; u0 ; " + script
 			}
 		}
+		if strings.Contains(script, "y ; ") {
+			// Cor.YieldFromIO resets subOn as a side effect; that is not part of the property: pin it explicitly afterwards
+			script = strings.ReplaceAll(script, "y ; ", "y ; u0 ; ")
+		}
 		if !c11Safe(t, script) {
 			return
 		}
